@@ -86,6 +86,8 @@ def flowStep (cfg : Cfg) (st : Stage) (s : FlowSt) : Ev → FlowSt × Out
 
 structure FusedSt where
   credit : Int := 0
+  /-- the first downstream demand has triggered the initial pull (fix cf400b2) -/
+  started : Bool := false
   alive : Bool := true
   deriving Repr, Inhabited
 
@@ -99,12 +101,14 @@ def fusedFn : List Stage → Val → Except Err (Option Val)
     | .ok (_, _) => .ok none
 
 def fusedStep (cfg : Cfg) (fs : List Stage) (s : FusedSt) : Ev → FusedSt × Out
-  | .wire => ({ s with credit := cfg.init }, { up := [.req cfg.init] })
+  | .up (.req _) =>
+    -- start pulling on the first downstream demand, not on stageWire
+    if s.started then (s, {}) else ({ s with started := true, credit := cfg.init }, { up := [.req cfg.init] })
   | .down (.elem v) =>
     match fusedFn fs v with
     | .error e => ({ s with alive := false }, { down := [.error e] })
     | .ok r =>
-      let d := match r with | some w => [Down.elem w] | none => []
+      let d := r.toList.map Down.elem
       let c := s.credit - 1
       if c ≤ cfg.refill then ({ s with credit := cfg.init }, { down := d, up := [.req (cfg.init - c)] })
       else ({ s with credit := c }, { down := d })
@@ -113,45 +117,65 @@ def fusedStep (cfg : Cfg) (fs : List Stage) (s : FusedSt) : Ev → FusedSt × Ou
   | .up .cancel => ({ s with alive := false }, { up := [.cancel], down := [.complete] })
   | _ => (s, {})
 
-/-! ### batchFlowActor (maxWait timer = the explicit `flush` event) -/
+/-! ### batchFlowActor (maxWait timer = the explicit `flush` event), after fix 688097a -/
 
 structure BatchSt where
   credit : Int := 0
   demand : Int := 0
   window : List Int := []
+  /-- a flush that was due (timer / full window) found no downstream demand -/
+  flushDue : Bool := false
+  /-- upstream has completed; completion is propagated once the window has been delivered -/
+  completing : Bool := false
   alive : Bool := true
-  /-- ghost (not in the Go code): some `flush()` call found `downstreamDemand <= 0` and returned without emitting -/
-  starved : Bool := false
   deriving Repr, Inhabited
 
-/-- `flush`: emits the window as one batch only if downstream demand is available -/
-def BatchSt.flush (s : BatchSt) : BatchSt × List Down :=
-  if s.demand ≤ 0 then ({ s with starved := true }, [])
-  else ({ s with window := [], demand := s.demand - 1 }, [.elem (.list s.window)])
+/-- `flush(partial)`: batches of at most `size` while demand lasts; fuel = window length -/
+def batchFlush (size : Nat) (part : Bool) : Nat → BatchSt → BatchSt × List Down
+  | 0, s => (if s.window.isEmpty then { s with flushDue := false } else s, [])
+  | f + 1, s =>
+    if !s.window.isEmpty && (part || s.window.length ≥ size) then
+      if s.demand ≤ 0 then ({ s with flushDue := s.flushDue || part }, [])
+      else
+        let n := min s.window.length size
+        let r := batchFlush size part f { s with window := s.window.drop n, demand := s.demand - 1 }
+        (r.1, .elem (.list (s.window.take n)) :: r.2)
+    else (if s.window.isEmpty then { s with flushDue := false } else s, [])
+
+def BatchSt.flush (n : Nat) (part : Bool) (s : BatchSt) : BatchSt × List Down :=
+  batchFlush (max n 1) part s.window.length s
 
 def BatchSt.maybeReq (cfg : Cfg) (s : BatchSt) : BatchSt × List Up :=
-  let avail := cfg.init - s.credit - s.window.length
-  if avail ≤ 0 then (s, [])
-  else if s.credit > cfg.refill then (s, [])
-  else ({ s with credit := s.credit + avail }, [.req avail])
+  if s.completing then (s, [])
+  else
+    let avail := cfg.init - s.credit - s.window.length
+    if avail ≤ 0 then (s, [])
+    else if s.credit > cfg.refill then (s, [])
+    else ({ s with credit := s.credit + avail }, [.req avail])
 
 def batchStep (cfg : Cfg) (n : Nat) (s : BatchSt) : Ev → BatchSt × Out
   | .up (.req k) =>
-    let r := ({ s with demand := s.demand + k }).maybeReq cfg
-    (r.1, { up := r.2 })
+    let s0 := { s with demand := s.demand + k }
+    let r1 := s0.flush n (s0.flushDue || s0.completing)
+    if r1.1.completing && r1.1.window.isEmpty then
+      ({ r1.1 with alive := false }, { down := r1.2 ++ [.complete] })
+    else
+      let r2 := r1.1.maybeReq cfg
+      (r2.1, { down := r1.2, up := r2.2 })
   | .down (.elem (.int x)) =>
     let s0 := { s with credit := s.credit - 1, window := s.window ++ [x] }
-    let r1 := if s0.window.length ≥ n then s0.flush else (s0, [])
+    let r1 := s0.flush n s0.flushDue
     let r2 := r1.1.maybeReq cfg
     (r2.1, { down := r1.2, up := r2.2 })
   | .down (.elem (.list _)) =>
     ({ s with credit := s.credit - 1, alive := false }, { up := [.cancel], down := [.error typeErr] })
   | .flush =>
-    let r := if s.window.isEmpty then (s, []) else s.flush
+    let r := s.flush n true
     (r.1, { down := r.2 })
   | .down .complete =>
-    let r := if s.window.isEmpty then (s, []) else s.flush
-    ({ r.1 with alive := false }, { down := r.2 ++ [.complete] })
+    let r := ({ s with completing := true }).flush n true
+    if r.1.window.isEmpty then ({ r.1 with alive := false }, { down := r.2 ++ [.complete] })
+    else (r.1, { down := r.2 })
   | .down (.error e) => ({ s with alive := false }, { down := [.error e] })
   | .up .cancel => ({ s with alive := false }, { up := [.cancel] })
   | _ => (s, {})
@@ -165,6 +189,8 @@ structure PMapSt where
   /-- the resequencing heap, as an unordered bag of (seqNo, value) -/
   pending : List (Nat × Val) := []
   upDone : Bool := false
+  /-- the first downstream demand has triggered the initial pull (fix cf400b2) -/
+  started : Bool := false
   alive : Bool := true
   deriving Repr, Inhabited
 
@@ -193,7 +219,7 @@ def PMapSt.flushOrdered (s : PMapSt) : PMapSt × List Down :=
   ({ s with nextEmit := r.1, pending := r.2.1 }, r.2.2.map Down.elem)
 
 def pmapStep (ordered : Bool) (w : Nat) (s : PMapSt) : Ev → PMapSt × Out
-  | .wire => (s, { up := [.req w] })
+  | .up (.req _) => if s.started then (s, {}) else ({ s with started := true }, { up := [.req w] })
   | .down (.elem v) =>
     match v with
     | .int _ =>
